@@ -3681,6 +3681,10 @@ func _append(n *node) {
 		values := make([]func(*frame) reflect.Value, l)
 		for i, arg := range args {
 			switch elem := n.typ.elem(); {
+			case arg.typ.cat == nilT:
+				// The nil value of the element type.
+				z := reflect.New(n.child[1].typ.TypeOf().Elem()).Elem()
+				values[i] = func(*frame) reflect.Value { return z }
 			case isInterfaceSrc(elem) && (!isEmptyInterface(elem) || len(arg.typ.method) > 0):
 				values[i] = genValueInterface(arg)
 			case isInterfaceBin(elem):
@@ -3705,6 +3709,10 @@ func _append(n *node) {
 	default:
 		var value0 func(*frame) reflect.Value
 		switch elem := n.typ.elem(); {
+		case n.child[2].typ.cat == nilT:
+			// The nil value of the element type.
+			z := reflect.New(n.child[1].typ.TypeOf().Elem()).Elem()
+			value0 = func(*frame) reflect.Value { return z }
 		case isInterfaceSrc(elem) && (!isEmptyInterface(elem) || len(n.child[2].typ.method) > 0):
 			value0 = genValueInterface(n.child[2])
 		case isInterfaceBin(elem):
